@@ -133,6 +133,15 @@ CHECKS = {
              "independence cannot be expressed in the pure model: they are observed on the generated histories only. The effect "
              "programs are hand-transcribed from the source.",
         technique="Coq proof of a static aliasing check on transcribed write sites + history-based snapshot observation", ref="7 (C19)"),
+    "C18": dict(
+        text="PARTIAL. Proved: the decision layer — every read error or exception, a lost field, lost rows/points or a lost "
+             "sequence step gives a non-zero exit code in both roles (Model.Cli). Enumerated exhaustively, not proved: every byte "
+             "offset before the end of the data of small files of every kind and encoding (.vtu x 6-9 encodings, .vtp, .vti, .vtr, "
+             ".vts, .pvtu index/piece, .pvd index/step, .csv) and the removal of each single DataArray/Piece/DataSet, in both "
+             "roles: the command must return non-zero and must not raise.",
+        note=TB + "expat, the raw-appended fallback locator and np.genfromtxt on damaged input are exercised, not modelled; the "
+             "codec-level lemma (a proper prefix of an encoded array never decodes to the full array) is part of C05's model.",
+        technique="Coq proof of the CLI decision layer + exhaustive fault enumeration over cut positions", ref="7 (C18)"),
 }
 
 ALL = [f"C{i:02d}" for i in range(1, 21)]
